@@ -19,6 +19,8 @@
 (* arnoldi  (cola/linalg/decompositions/arnoldi.py)                        *)
 (*   counter idx starts at 0; buffers sized by the REQUESTED max_iters m:  *)
 (*   Q: n x (m+1), H: (m+1) x m; loop capped by cap = min(m, n);           *)
+(*   (ArnoldiBufCaps: a tree that clamps the request to n before sizing    *)
+(*   the buffers is admitted as the second layout, mb = min(m, n))         *)
 (*   continue iff idx < cap /\ (norm > tol * H[1,0] \/ idx <= 0);          *)
 (*   nothing is trimmed.                                                   *)
 (* while_loop_winfo (cola/utils/torch_tqdm.py)                             *)
@@ -32,6 +34,9 @@ LMax2(a, b) == IF a > b THEN a ELSE b
 
 Algs == {"lanczos", "arnoldi"}
 Cap(m, n) == LMin2(m, n)
+\* admissible buffer caps of arnoldi for a requested max_iters m: the request itself (pinned snapshot) or the
+\* request clamped to n; the loop cap min(m, n) is the same for both
+ArnoldiBufCaps(m, n) == {m, Cap(m, n)}
 CtrInit(alg) == IF alg = "lanczos" THEN 1 ELSE 0
 CtlInit(alg) == [ctr |-> CtrInit(alg), done |-> FALSE, evals |-> 0, bodies |-> 0]
 
